@@ -40,7 +40,8 @@ class DBFSURI:
                 raise NotImplementedError(
                     f"Cannot join path for {self}: {type(seg)}: {seg}"
                 )
-            if s.startswith("."):
+            # A relative path may be spelled ./a/b: the leading './' is dropped (not the dot of a name like .hidden)
+            if s == "." or s.startswith("./"):
                 s = s[1:]
             if s.startswith("/"):
                 s = s[1:]
